@@ -19,6 +19,8 @@ from harness import common, tg, tgref
 
 REQUIRED = ["solve_goals_reachable_partial", "solve_goals_reachable_fresh", "solve_keeps_inv",
             "solve_goals_reachable_acyclic", "solve_eq_memo_free", "spec_unfold",
+            "remove_finished_goals_iff", "spec_iff_expl", "solve_iff_expl_partial",
+            "solve_iff_expl", "solve_subset", "expl_subset_closed",
             "find_node_backwards_sound", "find_node_backwards_iff", "remove_finished_goals_sound", "built_graph_wf",
             "provisional_witness", "solve_goals_reachable_not_full"]
 
@@ -105,6 +107,18 @@ def tiny_member(rng):
     origins.append(os_)
   cond = (rng.randrange(k), rng.randrange(nb)) if rng.random() < 0.5 else None
   return ("tiny", _tiny_ops(k, edges, layout, origins, cond), all_queries(k, max(layout) + 1, nb))
+
+
+def load_corpus():
+  """corpus/C07/*.json: minimised graphs of past disagreements / witnesses; run first."""
+  import glob
+  import json
+  import os
+  out = []
+  for f in sorted(glob.glob(os.path.join(common.VERIF, "corpus", "C07", "*.json"))):
+    for e in json.load(open(f)):
+      out.append(("corpus", [tg.parse_op(t) for t in e["ops"]], [tg.parse_op(t) for t in e["queries"]]))
+  return out
 
 
 def random_member(cfg, rng):
@@ -258,9 +272,12 @@ def correspond(res, rng, tier):
   common.load_pytype()
   common.ensure_driver("drv_c07")
   micro = list(micro_family())
-  n_tiny = 1600 if tier == "quick" else 30000
-  n_rand = 220 if tier == "quick" else 2500
+  n_tiny = 1200 if tier == "quick" else 20000
+  n_rand = 180 if tier == "quick" else 1500
   tasks = []
+  corpus = load_corpus()
+  if corpus:
+    tasks.append((0, "cases", corpus))
   chunk = 60
   for i in range(0, len(micro), chunk):
     tasks.append((0, "cases", micro[i:i + chunk]))
@@ -290,7 +307,7 @@ def correspond(res, rng, tier):
       "distinct_nontrivial counts graphs (each generated once) on which the real HasCombination/IsVisible answers "
       "include both True and False.")
   res.cov["distribution"] = {
-      "micro_graphs_exhaustive": len(micro), "tiny_graphs_sampled": n_tiny, "random_graphs": n_rand,
+      "corpus_graphs": len(corpus), "micro_graphs_exhaustive": len(micro), "tiny_graphs_sampled": n_tiny, "random_graphs": n_rand,
       "graphs": total.get("graphs", 0), "cyclic_graphs": total.get("cyclic", 0),
       "conditioned_graphs": total.get("conditioned", 0),
       "graphs_with_multi_source_origins": total.get("multi_source", 0),
@@ -484,8 +501,10 @@ def main():
                  "unconditioned queries: exact agreement)"],
         assumptions=["node/binding/variable ids are dense and assigned in creation order",
                      "variables stay below MAX_VAR_SIZE-1 = 63 bindings (generators: <= 20)",
-                     "theorem solve_goals_reachable is proved for graphs without node conditions only (cycles allowed); "
-                     "with conditions on a cycle it is false (known findings c07-provisional-true-*)"])
+                     "theorems: solve_iff_expl / solve_subset need a well-formed ACYCLIC graph WITHOUT node conditions and "
+                     "source-set ids in range (IdsOK); solve_goals_reachable is proved for (no conditions, cycles allowed) "
+                     "and for (acyclic, conditions allowed); with conditions on a cycle it is false (known findings "
+                     "c07-provisional-true-*); 'never rejects an explained combination' with conditions has no theorem"])
   except common.Timeout as e:
     print("TIMEOUT property=C07 %s" % e)
     return 2
